@@ -1,5 +1,6 @@
 import ZarrsModel.Driver.Proto
 import ZarrsModel.Driver.C01
+import ZarrsModel.Driver.C03
 import ZarrsModel.Driver.C08
 import ZarrsModel.Driver.C09
 import ZarrsModel.Driver.C10
@@ -26,6 +27,7 @@ structure DState where
 /-- new state, acceptable outcomes (`any` accepts everything), optional note -/
 def dispatch (st : DState) (l : Line) : Option (DState × List String × Option String) :=
   match l.verbs.head? with
+  | some "c03" => (DriverC03.handle l).map (fun a => (st, a, none))
   | some "c04" => (DriverC01.handle st.c01 l).map (fun (s, a, n) => ({ st with c01 := s }, a, n))
   | some "c06" => (DriverC01.handle st.c01 l).map (fun (s, a, n) => ({ st with c01 := s }, a, n))
   | some "c01" => (DriverC01.handle st.c01 l).map (fun (s, a, n) => ({ st with c01 := s }, a, n))
